@@ -9,7 +9,15 @@ from . import rsclient
 
 
 def ops(batch: List[Dict[str, Any]]) -> List[Dict[str, Any]]:
-    resp = rsclient.shared().call({"cmd": "c16.ops", "ops": batch})
+    req = {"cmd": "c16.ops", "ops": batch}
+    try:
+        resp = rsclient.shared().call(req)
+    except HarnessError:
+        # Every batch is self-contained (machines are created and dropped inside it), so a harness process
+        # that disappeared (killed from outside on the shared box) is replaced once; a crash caused by the
+        # request itself repeats and is reported as a harness error.
+        rsclient._shared = None
+        resp = rsclient.shared().call(req)
     if not resp.get("ok"):
         raise HarnessError(f"c16.ops failed: {str(resp)[:300]}")
     res = resp["results"]
